@@ -95,6 +95,8 @@ inductive Expr where
   | u2f (a : Expr)                          -- `float64(a)`, `a` a uint64
   | leBytes (a : Expr)                      -- the 8 bytes `binary.LittleEndian.PutUint64(tmp[:], a)` leaves in `tmp`
   | idxU (a i : Expr)                       -- `a[i]` of a `[]uint64` / `[N]uint32` (a uint32 is carried as a `u64` below 2^32)
+  | idxK (m i : Expr)                       -- `path[i]` of a `...string` (a list of byte strings, carried as `Val.keys`)
+  | dropK (m n : Expr)                      -- `path[n:]` of a `...string`
   deriving Repr, Inhabited
 
 inductive Stmt where
@@ -550,6 +552,24 @@ def evalE (s : St) : Expr → EOut
        | .val _ => .stuck "index type"
        | o => o)
     | .val _ => .stuck "index operand"
+    | o => o
+  | .idxK m i =>
+    match evalE s m with
+    | .val (.keys ks) =>
+      (match evalE s i with
+       | .val (.int k) => if 0 ≤ k ∧ k < ks.length then .val (.bytes (ks.getD k.toNat #[])) else .panic
+       | .val _ => .stuck "index type"
+       | o => o)
+    | .val _ => .stuck "index operand"
+    | o => o
+  | .dropK m n =>
+    match evalE s m with
+    | .val (.keys ks) =>
+      (match evalE s n with
+       | .val (.int k) => if 0 ≤ k ∧ k ≤ ks.length then .val (.keys (ks.drop k.toNat)) else .panic
+       | .val _ => .stuck "slice bound type"
+       | o => o)
+    | .val _ => .stuck "slice operand"
     | o => o
   | .idxB a i =>
     match evalE s a with
